@@ -238,7 +238,7 @@ func freshExtractor(name string) (filesystem.Extractor, error) {
 	return list.ExtractorFromName(name)
 }
 
-func runSECase(e *Env, c *seCase) (map[string]any, error) {
+func runSECase(e *Env, c *seCase, m *emitter) (map[string]any, error) {
 	byName, regList, err := seRegistry(e)
 	if err != nil {
 		return nil, err
@@ -388,6 +388,13 @@ func runSECase(e *Env, c *seCase) (map[string]any, error) {
 			return nil, err
 		}
 	}
+	// If the scan kills this process (a fatal runtime error cannot be recovered), the parent still
+	// compares the zones: it finds the sandbox and the before-snapshot through the begin marker.
+	bb, _ := json.Marshal(before)
+	if err := os.WriteFile(filepath.Join(box, "before.json"), bb, 0o644); err != nil {
+		return nil, err
+	}
+	m.begin(map[string]any{"i": c.I, "box": box})
 	oldwd, _ := os.Getwd()
 	oldtmp := os.Getenv("TMPDIR")
 	if err := os.Chdir(cwd); err != nil {
@@ -452,7 +459,7 @@ func init() {
 			return err
 		}
 		m.begin(map[string]any{"i": c.I})
-		out, err := runSECase(e, &c)
+		out, err := runSECase(e, &c, m)
 		if err != nil {
 			m.result(map[string]any{"i": c.I, "error": err.Error()})
 			return nil
@@ -491,6 +498,32 @@ func init() {
 		pc := &poolCfg{Kind: "sideeffects", Workers: e.Workers, Silence: 150 * time.Second,
 			OnResult: func(job int, line []byte) { outf.Write(line); outf.Write([]byte("\n")) },
 			OnDeath: func(job int, jobRaw []byte, d death) []byte {
+				var bm struct {
+					Box string `json:"box"`
+				}
+				_ = json.Unmarshal(d.LastBegin, &bm)
+				if bm.Box != "" && strings.HasPrefix(bm.Box, e.Tmp) {
+					defer os.RemoveAll(bm.Box)
+					before := map[string]map[string]entry{}
+					if bb, err := os.ReadFile(filepath.Join(bm.Box, "before.json")); err == nil && json.Unmarshal(bb, &before) == nil {
+						obs := map[string][]diff{}
+						ok := true
+						for _, z := range []string{"tree", "cwd", "tmp"} {
+							after, err := snapshot(filepath.Join(bm.Box, z))
+							if err != nil {
+								ok = false
+								break
+							}
+							obs[z] = diffSnap(before[z], after)
+						}
+						if ok {
+							b, _ := json.Marshal(map[string]any{"i": job, "obs": obs, "crashed": d.Why + ": " + d.Stderr, "runs": map[string]int{}})
+							outf.Write(b)
+							outf.Write([]byte("\n"))
+							return nil
+						}
+					}
+				}
 				b, _ := json.Marshal(map[string]any{"i": job, "died": d.Why, "stderr": d.Stderr})
 				outf.Write(b)
 				outf.Write([]byte("\n"))
